@@ -175,6 +175,7 @@ func shorten(s string) string {
 func c06(r *core.Report) {
 	lookupFolding(r, "C06.lookup")
 	requiredExemption(r, "C06.reqexempt")
+	c06RawHeader(r)
 	c06Streams(r)
 	p := r.Prog
 	pk := p.Pkg("openapi3filter")
@@ -1062,6 +1063,50 @@ func requiredExemption(r *core.Report, rule string) {
 				r.Bad(key, p.Pos(loop.Pos()), fmt.Sprintf("the exemption of a missing %s property from `required` also depends on %s", w.annot, foreign))
 			default:
 				r.OK(key, p.Pos(loop.Pos()), "continue under "+w.annot+" && settings."+w.dir)
+			}
+		}
+	})
+}
+
+// c06RawHeader: the content lookup sees the Content-Type header as sent. Content.Get has its own
+// precedence (exact string, then the type without parameters, then wildcards): handing it a header
+// that was already stripped of its parameters makes the first level unreachable.
+func c06RawHeader(r *core.Report) {
+	p := r.Prog
+	info := p.Pkg("openapi3filter").TypesInfo
+	r.RunRule("C06.rawheader", "the declared media types are looked up with the header as it was sent: in ValidateRequestBody and ValidateResponse the argument of Content.Get is what Header.Get returned for Content-Type, not the result of a function applied to it (parseMediaType and the like strip the parameters, after which a declared `application/json; charset=utf-8` can no longer be found by its own name and a less specific declaration, with another schema, is used instead)", 2, func() {
+		for _, fname := range []string{"ValidateRequestBody", "ValidateResponse"} {
+			fd := p.DeclOf("openapi3filter", fname)
+			ff := core.NewFuncFacts(p, info, fd)
+			n := 0
+			for _, c := range callsTo(info, fd.Body, "Get") {
+				callee := core.CalleeOf(info, c)
+				if callee == nil || !core.InRepo(callee.Pkg()) || len(c.Args) != 1 {
+					continue
+				}
+				n++
+				key := fmt.Sprintf("rawheader:%s#%d", fname, n)
+				rs := ff.Roots(c.Args[0], false)
+				viaHeader, viaRepoFunc := false, ""
+				for f := range rs.Funcs {
+					if f.Pkg() != nil && f.Pkg().Path() == "net/http" && f.Name() == "Get" {
+						viaHeader = true
+					}
+					if core.InRepo(f.Pkg()) {
+						viaRepoFunc = f.Name()
+					}
+				}
+				switch {
+				case viaRepoFunc != "":
+					r.Bad(key, p.Pos(c.Pos()), fmt.Sprintf("%s looks the declared media types up with a value that went through %s: the exact-string level of Content.Get's precedence is out of reach for a declared media type with parameters", fname, viaRepoFunc))
+				case viaHeader:
+					r.OK(key, p.Pos(c.Pos()), "looked up with the header value as sent")
+				default:
+					r.Unknown(key, p.Pos(c.Pos()), "the argument of Content.Get does not come from Header.Get")
+				}
+			}
+			if n == 0 {
+				core.Fail("%s: no Content.Get call", fname)
 			}
 		}
 	})
